@@ -8,14 +8,9 @@
    utf8enc <code point>                    -> ok <hex>
    tables are the regenerated Generated.Keys. -/
 import Curtsies.Wire
-import Curtsies.Model.Keys
-import Curtsies.Generated.Keys
+import Curtsies.Model.KeysGen
 namespace Curtsies.Driver
 open Curtsies Curtsies.Wire
-
-def genTables : KeyTables :=
-  { curtsies := Generated.curtsiesNames, curses := Generated.cursesNames,
-    prefixes := Generated.keymapPrefixes, maxSize := Generated.maxKeypressSize }
 
 def hexVal (c : Char) : Option Nat :=
   if '0' ≤ c && c ≤ '9' then some (c.toNat - 48)
